@@ -14,7 +14,7 @@ FUNCTIONS = ["UserData/ExtUserData.__init__/toJSON", "ParseUserData.parse/parseC
              "Default.toJSON", "pel.hexdump.hexdump", "pel.hexdump.parse (recovery function)", "peltool.sectionFun"]
 
 BEHAVIOURS = {"absent": None, "dict": 0, "list": 1, "none": 2, "empty": 3, "raises": 4, "raises-noargs": 5,
-              "null": 8, "string": 9}
+              "null": 8, "string": 9, "import-fails": 0}
 DISPATCH = ["%s:%s" % (sec, b) for sec in ("UD", "ED") for b in BEHAVIOURS] + ["UD:disabled", "ED:disabled", "XX:other"]
 SECOND = ["UD:absent", "ED:absent", "UD:dict", "UD:raises", "ED:none"]
 BIG = ["%s:L%d" % (s, L) for s in ("UD", "ED", "XX") for L in (32759, 32760, 40001, 65527)]
@@ -25,7 +25,7 @@ LOSSLESS = ["%s:L%d:p%d" % (s, L, p) for s in ("UD", "ED", "XX", "CBOR", "BMC9")
 
 HARNESSES = [
     {"fn": "h_dispatch", "cases": DISPATCH, "quick_cases": ["UD:absent", "UD:raises-noargs", "ED:none", "UD:dict", "ED:list",
-                                                           "UD:disabled", "XX:other", "UD:empty"],
+                                                           "UD:disabled", "XX:other", "UD:empty", "UD:import-fails"],
      "timeout": {"quick": 90, "thorough": 300}},
     {"fn": "h_second", "cases": SECOND, "quick_cases": ["UD:absent", "UD:raises"], "timeout": {"quick": 90, "thorough": 300}},
     {"fn": "h_big", "cases": BIG, "quick_cases": ["XX:L32760", "UD:L65527"], "timeout": {"quick": 120, "thorough": 400}},
@@ -116,6 +116,9 @@ def h_dispatch() -> bool:
     data = mkbytes(data, b"\xEE\xEE")
     try:
         with env(b if b is not None else 0, present) as e:
+            if beh == "import-fails":
+                # the module exists but raises (not an ImportError) while being imported
+                e.imp.import_raises = RuntimeError("broken parser module")
             name, out, used = decode(data, creator, plugins)
     except Exception as ex:
         return verdict(False, obs={"exception": repr(ex)})
@@ -134,6 +137,8 @@ def h_dispatch() -> bool:
     elif beh in ("list", "string", "null"):
         conds += [extra == ["Data"], len(calls) == 1,
                   out.get("Data") == {"list": ["plugin", "list"], "string": "just a string", "null": None}[beh]]
+    elif beh == "import-fails":
+        conds += [extra == ["Error", "Data"], out.get("Data") == dump, calls == []]
     elif beh == "none":
         conds += [extra == ["Error", "Data"], out.get("Data") == dump, len(calls) == 1]
     elif beh == "empty":
